@@ -735,10 +735,9 @@ fn get_region_name_and_type_definition<'a>(
     type_path: &ItemPath,
     region: &Region,
 ) -> anyhow::Result<Option<(String, &'a TypeDefinition)>> {
-    let region_name = region
-        .name
-        .clone()
-        .expect("region had no name, this shouldn't be possible");
+    let region_name = region.name.clone().with_context(|| {
+        format!("a base field of type `{type_path}` has no name (`_` cannot be a base)")
+    })?;
 
     let Type::Raw(path) = &region.type_ref else {
         anyhow::bail!(
